@@ -40,8 +40,9 @@ META = {
     "tables": [],
     "files": ["asyncfix/fix_tester.py", "asyncfix/protocol/order_single.py", "asyncfix/protocol/schema.py",
               "asyncfix/connection.py"],
-    "rule": "histories of helper calls (1-2 orders; new/register, fabricated reports delivered or not, cancel / replace "
-            "requests, cancel rejects) with scenario-derived, perturbed and random arguments; a case is one helper call in its "
+    "rule": "histories of helper calls (1-3 orders; new/register, fabricated reports delivered or not, cancel / replace "
+            "requests, cancel rejects, and the non-fabricating public methods reset_messages / set_next_num / queries / msg_* "
+            "factories / process_msg_acceptor / reply between fabrications, 30% of the testers built around a connection) with scenario-derived, perturbed and random arguments; a case is one helper call in its "
             "history (order snapshot + arguments + counters), non-trivial when the call passed the registration / ClOrdID "
             "assertions (so ids were allocated); plus session-factory calls, a non-exact float stream (oracle only) and clean "
             "session scripts of 3-11 steps replayed against the helper's acceptor and against a real AsyncFIXDummyServer",
@@ -229,7 +230,10 @@ def shrink_hist(case, what):
 class Hist:
     """Executes a history of helper calls on a fresh FIXTester and fresh orders.
 
-    actions:  ["new", k, root, ticker, side, price, qty, account, mode]   mode 0: new_req + register, 1: register only,
+    actions:  ["conn"] (first action only: tester built around an initiator connection), ["reset"] reset_messages,
+              ["setnum", in, out] set_next_num, ["query", which, index], ["factory", which] msg_*,
+              ["traffic", which] process_msg_acceptor / reply - the non-fabricating public methods;
+              ["new", k, root, ticker, side, price, qty, account, mode]   mode 0: new_req + register, 1: register only,
                                                                          2: new_req only (unregistered)
               ["fab", k, args, deliver]     args = [clord, exec, status, cum, leaves, last, price, order_qty, orig, avg]
               ["cxl", k] / ["rep", k, price, qty]      fix_cxl_request / fix_rep_request
@@ -297,6 +301,73 @@ class Hist:
             self.t.order_register_single(o)
             self.model_reqs.append((sx([5, before, str(o.clord_id)]), [codes(x) for x in self.state()[2]], self.case("register"), "registered-keys"))
         return o
+
+    # ---- the helper's non-fabricating public methods (Tester.book): each is followed by a comparison of the whole
+    #      fabrication state (counters, registered keys, root -> OrderID map) with the model, and the ExecID / OrderID
+    #      oracle keeps running across them
+    def state_codes(self):
+        st = self.state()
+        return [st[0], st[1], [codes(x) for x in st[2]], self.oids_codes()]
+
+    def book(self, kind, call, what):
+        before = self.state()
+        exc = None
+        try:
+            call()
+        except Exception as e:  # noqa: BLE001   (e.g. IndexError of a query on an empty list; never affects the state)
+            exc = type(e).__name__
+        self.ctx.count("book:%s%s" % (what, ":raised-" + exc if exc else ""))
+        self.model_reqs.append((sx([8, before, kind]), self.state_codes(), self.case(what), "bookkeeping-state"))
+
+    def do_conn(self):
+        """must be the first action: the tester is built around an initiator connection (simulated acceptor wired)"""
+        import logging
+        from asyncfix.connection import AsyncFIXConnection, ConnectionState
+        from asyncfix.journaler import Journaler
+        from asyncfix.protocol import FIXProtocol44
+        L = lib()
+        log = logging.getLogger("c20hist")
+        if not log.handlers:
+            log.addHandler(logging.NullHandler())
+            log.propagate = False
+            log.setLevel(logging.CRITICAL + 1)
+        self.conn = AsyncFIXConnection(FIXProtocol44(), "INITIATOR", "ACCEPTOR", Journaler(), "localhost", 64444, 30, log)
+        self.conn._connection_state = ConnectionState.NETWORK_CONN_ESTABLISHED
+        self.t = L["FIXTester"](schema=L["SCHEMA"], connection=self.conn)
+
+    def do_reset(self):
+        self.book(0, self.t.reset_messages, "reset_messages")
+
+    def do_setnum(self, num_in, num_out):
+        self.book(1, lambda: self.t.set_next_num(num_in, num_out), "set_next_num")
+
+    def do_query(self, which, index):
+        f = self.t.acceptor_sent_query if which == 0 else self.t.initiator_sent_query
+        self.book(2, lambda: f((35, 34), index), "query")
+
+    def do_factory(self, which):
+        t = self.t
+        calls = [lambda: t.msg_logon(), t.msg_logout, lambda: t.msg_heartbeat("T1"), lambda: t.msg_test_request("T2"),
+                 lambda: t.msg_sequence_reset(3, 7, True), lambda: t.msg_resend_request(2, 0)]
+        self.book(3, calls[which % len(calls)], "factory")
+
+    def do_traffic(self, which):
+        """session traffic through the simulated acceptor (process_msg_acceptor / reply); needs ["conn"]"""
+        import asyncio
+        t, conn = self.t, getattr(self, "conn", None)
+
+        async def go():
+            if conn is None:
+                await t.reply(t.msg_heartbeat())          # AttributeError: no simulated acceptor
+            elif int(conn.connection_state) == 6:         # NETWORK_CONN_ESTABLISHED: log on
+                await conn.send_msg(t.msg_logon())
+                await t.process_msg_acceptor()
+            elif which == 0:
+                await conn.send_msg(t.msg_heartbeat())
+                await t.process_msg_acceptor()
+            else:
+                await t.reply(t.msg_heartbeat())
+        self.book(5, lambda: asyncio.run(asyncio.wait_for(go(), 5)), "acceptor-traffic")
 
     def do_cxl(self, k):
         o = self.orders[k]
@@ -402,6 +473,7 @@ class Hist:
             m, impl = None, ["exc", type(e).__name__]
         finally:
             self.t.schema = L["SCHEMA"]
+        self.model_reqs.append((sx([8, self.state(), 4]), self.state_codes(), self.case("cancel-reject"), "bookkeeping-state"))
         self.ctx.case(("rej", line), nontrivial=m is not None)
         self.ctx.count("rej:" + ("ok" if m is not None else "refused"))
         self.model_reqs.append((line, impl, self.case({"rej": status, "variant": variant}), "cancel-reject"))
@@ -630,10 +702,27 @@ def gen_history(ctx, rng, h=None):
     """generate and execute one history"""
     h = h or Hist(ctx)
     n = rng.randrange(4, 18)
+    connected = rng.random() < 0.3
+    if connected:
+        h.do(["conn"])
     h.do(gen_new(rng, 0))
     for _ in range(n):
         k = rng.choice(list(h.orders))
         o = h.orders[k]
+        if rng.random() < 0.12:
+            # a non-fabricating public method between fabrications (multi-phase test shape)
+            b = rng.random()
+            if b < 0.45:
+                h.do(["reset"])
+            elif b < 0.6:
+                h.do(["setnum", rng.choice([None, 1, 5, 20]), rng.choice([None, 1, 7])] if connected else ["reset"])
+            elif b < 0.7:
+                h.do(["query", rng.randrange(2), rng.choice([-1, 0])])
+            elif b < 0.85:
+                h.do(["factory", rng.randrange(6)])
+            else:
+                h.do(["traffic", rng.randrange(2)])
+            continue
         r = rng.random()
         if len(h.orders) < 3 and (r < 0.04 or (o.is_finished() and r < 0.5)):
             h.do(gen_new(rng, len(h.orders)))
@@ -1090,6 +1179,19 @@ def corpus_hist(ctx):
         for a in acts:
             h.do(a)
         out.append(h)
+    # two-phase history: reports, reset_messages(), more reports (ExecIDs must go on increasing)
+    h = Hist(ctx)
+    for a in ([new, ["fab", 0, ack, 1], ["fab", 0, ["ord--1", "F", "1", 2 * U, 6 * U, 2 * U, None, None, None, 0], 1], ["reset"],
+               ["factory", 0], ["query", 0, -1],
+               ["fab", 0, ["ord--1", "F", "1", 5 * U, 3 * U, 3 * U, None, None, None, 0], 1],
+               ["fab", 0, ["ord--1", "F", "2", 8 * U, 0, 3 * U, None, None, None, 0], 1]]):
+        h.do(a)
+    out.append(h)
+    h = Hist(ctx)
+    for a in (["conn"], new, ["fab", 0, ack, 1], ["traffic", 0], ["setnum", 5, 7], ["reset"], ["traffic", 1],
+              ["fab", 0, ["ord--1", "4", "4", None, 0, None, None, None, None, 0], 1]):
+        h.do(a)
+    out.append(h)
     h = Hist(ctx, exact=False)
     h.do(["new", 0, "nx", "TICK", "1", ["f", "10.0"], ["f", "1e-05"], "000000", 0])
     h.do(["fab", 0, ["nx--1", "0", "0", ["f", "0.0"], ["f", "1e-05"], None, None, None, None, ["f", "0.0"]], 1])
